@@ -50,9 +50,9 @@ class StmtMixin:
         ghost = getattr(fn, "ghost", None) if fn is not None else None
         if not ghost:
             return m(s, p)
-        key = self._stmt_key(s)
-        before = [g for g in ghost if g[0] == key and g[1] == "before"]
-        after = [g for g in ghost if g[0] == key and g[1] == "after"]
+        keys = self._stmt_keys(s)
+        before = [g for g in ghost if g[0] in keys and g[1] == "before"]
+        after = [g for g in ghost if g[0] in keys and g[1] == "after"]
         if not before and not after:
             return m(s, p)
         for g in before:
@@ -65,6 +65,18 @@ class StmtMixin:
                     self.run_ghost(q, g[2])
                     fn._ghost_hits.add((g[0], g[1]))
         return res
+
+    def _stmt_keys(self, s):
+        """All anchors a statement answers to: its text, `store:<target>` for (augmented) assignments and
+        `call:<callee>` for expression-statement calls (robust against edits of the right-hand side)."""
+        keys = {self._stmt_key(s)}
+        if isinstance(s, ast.Assign):
+            keys |= {"store:" + ast.unparse(t) for t in s.targets}
+        elif isinstance(s, (ast.AugAssign, ast.AnnAssign)):
+            keys.add("store:" + ast.unparse(s.target))
+        elif isinstance(s, ast.Expr) and isinstance(s.value, ast.Call):
+            keys.add("call:" + ast.unparse(s.value.func))
+        return keys
 
     def _stmt_key(self, s):
         """Ghost code is anchored by the (normalised) source text of a simple statement, or by the header of a
@@ -84,17 +96,24 @@ class StmtMixin:
         if tree is None:
             tree = self._ghost_cache[code] = ast.parse(code).body
         for st in tree:
-            if not (isinstance(st, ast.Assign) and len(st.targets) == 1 and isinstance(st.targets[0], ast.Name)
-                    and st.targets[0].id.startswith("g_")):
-                raise Unsupported("ghost code may only assign ghost locals g_*")
-            env = {}
+            ok = isinstance(st, ast.Assign) and len(st.targets) == 1
+            tgt = st.targets[0] if ok else None
+            if not ok or not ((isinstance(tgt, ast.Name) and tgt.id.startswith("g_")) or
+                              (isinstance(tgt, ast.Attribute) and tgt.attr.startswith("g_"))):
+                raise Unsupported("ghost code may only assign ghost locals g_* or ghost fields obj.g_*")
+            env = dict(self.ghost_env)
             for k in list(p.frame.locals):
                 if k.startswith("$k"):
                     env["g_k"] = p.frame.locals[k]
             v = self.spec_val(st.value, p, env)
-            p.frame.locals[st.targets[0].id] = v
+            if isinstance(tgt, ast.Name):
+                p.frame.locals[tgt.id] = v
+            else:
+                obj = self.spec_val(tgt.value, p, env)
+                self.write_field(p, obj, tgt.attr, v)
 
     _ghost_cache: dict = {}
+    ghost_env: dict = {}
 
     def lift(self, results, f):
         """results from ev: (p, V|Exc) -> outcomes; f(p, v) -> list[(p, outcome)]."""
@@ -585,7 +604,10 @@ class StmtMixin:
         # ghost locals updated by ghost code anchored inside this loop are loop-carried too
         gh = getattr(p.frame.fn, "ghost", None) or []
         if gh:
-            inside = {self._stmt_key(n) for n in ast.walk(s) if isinstance(n, ast.stmt)}
+            inside = set()
+            for n in ast.walk(s):
+                if isinstance(n, ast.stmt):
+                    inside |= self._stmt_keys(n)
             for key, _when, code in gh:
                 if key in inside:
                     targets |= {t.targets[0].id for t in ast.parse(code).body}
